@@ -7,6 +7,7 @@ import json
 import os
 import random
 import re
+import shlex
 import shutil
 import signal
 import subprocess
@@ -229,16 +230,23 @@ def run_harness(ctx: Ctx, h: dict, logdir: str) -> dict:
 # Native replay of a solver model
 # ---------------------------------------------------------------------------
 
-def playback(ctx: Ctx, h: dict, logdir: str, prop: str) -> dict:
+def playback(ctx: Ctx, h: dict, logdir: str, prop: str, failed_run: dict | None = None) -> dict:
     """Ask Kani for concrete values, turn them into a unit test and run it natively
     (no stubs, real std) in dev and release profiles."""
     res = {"reproduced": False, "path": None, "detail": ""}
+    # Ask CBMC for the trace of ONE failing property only (`--cbmc-args --property <name>`): generating
+    # traces for every failing check and every satisfied cover costs 4-10x the plain run and made
+    # kani-driver grow to > 40 GB on the in-sphere cubes (OOM-killed); one property takes about as
+    # long as the plain run.
+    fails = (failed_run or {}).get("failures") or []
+    own = [f for f in fails if re.match(r"c\d\d::", f["check"]) and ".assertion." in f["check"]]
+    target = (own or fails or [None])[0]
+    extra = "-Z concrete-playback --concrete-playback=print"
+    if target:
+        extra += " -Z unstable-options --cbmc-args --property " + shlex.quote(target["check"])
     with Lane(ctx) as lane:
-        cmd = kani_cmd(lane, h, "-Z concrete-playback --concrete-playback=print")
-        # trace generation for every failed check and every cover costs several times the plain run
-        # (and the JSON trace needs far more address space than the plain run: 10 GB and 32 GB caps both killed it
-        # -> no address-space cap at all for this one run; the time limit still applies)
-        rc, out, wall = run_cmd(cmd, ctx.harness_dir, 4 * h["timeout"] + 900, None)
+        cmd = kani_cmd(lane, h, extra)
+        rc, out, wall = run_cmd(cmd, ctx.harness_dir, 2 * h["timeout"] + 900, None)
     with open(os.path.join(logdir, h["name"] + ".playback-gen.log"), "w") as f:
         f.write(out)
     test = extract_playback_test(out, [f["description"] for f in parse_kani(out)["failures"]])
@@ -418,7 +426,7 @@ def check_property(prop: str, tier: str, only: str | None, jobs: int, ctx: Ctx |
                 unreplayed.append(r)
                 continue
             log(f"[{prop}] {r['name']}: solver found a model for: {descs[:4]} -- replaying natively")
-            pb = playback(ctx, h, logdir, prop)
+            pb = playback(ctx, h, logdir, prop, r)
             r["replay"] = pb
             if pb["reproduced"]:
                 if e:
